@@ -234,6 +234,8 @@ def run_case(case):
     positions += [("factor", None, k) for k in range(nfac)] + [("solve", None, k) for k in range(nsol)]
     # a linear solver that does not report its failure but returns a vector containing NaN (every third solve)
     positions += [("nan", None, k) for k in range(0, nsol, 3)]
+    # ... or a solution in which one component is infinite (every third solve, shifted)
+    positions += [("inf", None, k) for k in range(1, nsol, 3)]
     bump("base_runs")
     bump("base_runs_out_of_bounds_start", int(bool(case.get("x0_out"))))
     bump("positions_in_reference_runs", len(positions))
@@ -266,7 +268,23 @@ def run_case(case):
         bump("positions_hit_%s" % (comp if kind == "eval" else kind))
         # (a silently non-finite solution is only a failure of the trial if a used part of it is non-finite: components
         # of active variables are overwritten by the step solvers, so "discarded" is not demanded for these positions)
-        viol, st = judge(case, p, out, fe, fl, check_discard=(kind != "nan"))
+        viol, st = judge(case, p, out, fe, fl, check_discard=(kind not in ("nan", "inf")))
+        if kind == "inf":
+            # the infinite component may belong to an active variable, whose solution component the step solvers
+            # overwrite: the attempt is then legitimately unaffected.  Either way: an attempt that was not discarded
+            # must be exactly the attempt of the fault-free run -- garbage must not have shaped it
+            Tf, Tr = out.trace.trials, ref.trace.trials
+            for f in fl:
+                t = f[2]
+                if t is None or t < 0 or t >= len(Tf) or "accepted" not in Tf[t]:
+                    continue
+                bump("infinite_component_attempts_judged")
+                if Tf[t]["accepted"] and not Tf[t]["same"]:
+                    if t >= len(Tr) or not work.same_trial(Tf[t], Tr[t]):
+                        viol.append({"what": "an attempt whose linear solve returned an infinite component was accepted "
+                                             "with another result than in the fault-free run (trial %d)" % t,
+                                     "key": dict(work.cfg_key(case["cfg"], "step_solver", "control", "linear", "newton"),
+                                                 family=case["fam"], kind="infinite-component-accepted")})
         for v in viol:
             v.setdefault("detail", {})["position"] = [kind, comp, k]
         res["viol"] += viol
@@ -293,11 +311,11 @@ def finalize(agg, tier):
         "rule": "base runs: small QP/NLP/degenerate/nonconvex specs x all 4 step solvers x all 4 step controllers x "
                 "LU/GMRES(/MINRES) x random Newton type, penalty, active-set rule, scaling none/custom, 6-10 iterations; for "
                 "each base run every evaluation index of obj/obj_grad/cons/cons_jac/lag_hess and every factorisation and "
-                "solve index of the fault-free reference run is failed once (transient), every third solve additionally returns a vector containing NaN without raising; region runs: every evaluation "
+                "solve index of the fault-free reference run is failed once (transient), every third solve additionally returns a vector containing NaN without raising, another third a solution with one infinite component; region runs: every evaluation "
                 "outside a ball / half-space around the start fails; a position is non-trivial when the injected failure "
                 "actually fired; positions are distinct by construction",
         "floors": {"base_runs": 30, "positions_enumerated": 2000, "recoveries": 1000, "positions_hit_factor": 100,
-                   "positions_hit_solve": 100, "positions_hit_nan": 40, "positions_hit_lag_hess": 100, "positions_hit_cons": 100,
+                   "positions_hit_solve": 100, "positions_hit_nan": 40, "positions_hit_inf": 40, "infinite_component_attempts_judged": 30, "positions_hit_lag_hess": 100, "positions_hit_cons": 100,
                    "region_faults_fired": 100, "recoveries_Standard": 50, "recoveries_Extended": 50,
                    "recoveries_Symmetric": 50, "recoveries_Asymmetric": 50, "initial_point_errors": 30,
                    "region_display_faults_fired": 30},
